@@ -21,7 +21,8 @@ def hx(s):
 
 class Graph:
     def __init__(self, toks):
-        self.tokens = toks
+        # the trailing `L loc...` (the `file:line` of every step) is not part of what the scheduler model reads
+        self.tokens = toks[:toks.index("L")] if "L" in toks else toks
         it = iter(toks)
         nxt = lambda: next(it)
         assert nxt() == "G"
@@ -64,6 +65,8 @@ class Graph:
         self.pools = [(unhexs(nxt()).decode(), int(nxt())) for _ in range(int(nxt()))]
         assert nxt() == "D"
         self.defaults = [int(nxt()) for _ in range(int(nxt()))]
+        rest = list(it)
+        self.locs = [unhexs(x) for x in rest[1:]] if rest and rest[0] == "L" else []
 
     def ordering_ins(self, b):
         bd = self.builds[b]
@@ -114,7 +117,19 @@ class Inv:
         self.raw = text
         self.result = kv.get("result", "")
         self.started = [int(x) for x in kv.get("started", "").split(",") if x]
-        self.trace = [e for e in kv.get("trace", "").split(",") if e]
+        # `-d explain` messages (log_<hex>) are taken out of the trace: (step, [messages]) per verdict, in order
+        self.trace, self.explained, pend = [], [], []
+        for e in kv.get("trace", "").split(","):
+            if not e:
+                continue
+            if e.startswith("log_"):
+                pend.append(unhexs(e[4:]))
+                continue
+            if e.startswith("dirty_"):
+                self.explained.append((int(e.split("_")[1]), pend))
+                pend = []
+            self.trace.append(e)
+        self.stray_logs = pend
         self.graphs = [Graph(g.split("_")) for g in kv.get("graphs", "").split("|") if g]
         self.files = {}
         for ent in kv.get("files", "").split(","):
@@ -423,9 +438,16 @@ def gen_script(rng, n, fail_rate=0.15, interrupt_rate=0.01):
 
 
 def inv_cmd(j, k, adopt, targets, script, manifest=None):
-    return "inv %d %s %d %s %s %s" % (j, "-" if k is None else k, 1 if adopt else 0,
-                                      hx(manifest) if manifest else "-",
-                                      ",".join(hx(t) for t in targets) if targets else "-", script or "-")
+    l = "inv %d %s %d %s %s %s" % (j, "-" if k is None else k, 1 if adopt else 0,
+                                   hx(manifest) if manifest else "-",
+                                   ",".join(hx(t) for t in targets) if targets else "-", script or "-")
+    # half of the invocations (chosen by a checksum of the line, so that a scenario replays exactly) run with `-d explain`
+    import zlib
+    return l + " x" if zlib.crc32(l.encode()) & 1 else l
+
+
+def inv_explains(line):
+    return line.startswith("inv ") and line.endswith(" x")
 
 
 def gen_sched_scenario(rng, **kw):
